@@ -90,6 +90,16 @@ func (d *Ar) Next() (*ArEntry, error) {
 	if err != nil {
 		return nil, err
 	}
+	if entry.Size < 0 {
+		return nil, fmt.Errorf("Malformed file entry: negative size %d", entry.Size)
+	}
+	if entry.Size > 0 {
+		/* The member has to be there in full: probe its last byte */
+		var last [1]byte
+		if n, _ := d.in.ReadAt(last[:], d.offset+int64(count)+entry.Size-1); n != 1 {
+			return nil, fmt.Errorf("Malformed file entry: %d byte member is truncated", entry.Size)
+		}
+	}
 
 	entry.Data = io.NewSectionReader(d.in, d.offset+int64(count), entry.Size)
 	d.offset += int64(count) + entry.Size + (entry.Size % 2)
